@@ -619,6 +619,30 @@ struct Cursor {
 
 void run_lazy(Ctx& c, int psSize, int dSize) {
   struct K { char kind; int size; };
+  // huge lazy sets (added after a round-8 seed): products of k power sets over n elements, far beyond every enumerable size. Whatever
+  // cardinality the library reports for them (it saturates), a set with elements is not empty: cardinality > 0, != the empty set,
+  // begin() != end(), its first element is a member, and a member built by hand is contained.
+  for (const auto& [n, kf] : std::vector<std::pair<int, int>>{ { 3, 2 }, { 16, 2 }, { 16, 4 }, { 20, 3 }, { 22, 3 }, { 27, 3 }, { 28, 2 }, { 31, 2 }, { 16, 8 }, { 8, 8 } }) {
+    if (!c.take()) continue;
+    const std::string desc = "lazy:huge product of " + std::to_string(kf) + " power sets over " + std::to_string(n) + " elements";
+    c.begin(desc);
+    Checker k{ c };
+    std::vector<ob::DataID> ids; for (int i = 1; i <= n; ++i) ids.push_back(i);
+    const auto base = Factory::SetV(ids);
+    std::vector<StructuredData> factors(static_cast<size_t>(kf), Factory::Boolean(base));
+    const auto D = Factory::Decartian(factors);
+    OK(k, !D.B().IsEmpty(), "huge-product-empty", desc + ": IsEmpty() although every factor has elements");
+    OK(k, D.B().Cardinality() > 0, "huge-product-cardinality", desc + ": Cardinality()", std::to_string(D.B().Cardinality()), "> 0");
+    OK(k, !(D == Factory::EmptySet()) && !(Factory::EmptySet() == D), "huge-product-equals-empty", desc + ": compares equal to the empty set");
+    OK(k, D.B().begin() != D.B().end(), "huge-product-no-iteration", desc + ": begin() == end()");
+    std::vector<StructuredData> member(static_cast<size_t>(kf), Factory::SetV({ 1 }));
+    OK(k, D.B().Contains(Factory::Tuple(member)), "huge-product-contains", desc + ": a tuple of members of the factors is not contained");
+    if (D.B().begin() != D.B().end()) { const StructuredData first = *D.B().begin(); OK(k, D.B().Contains(first), "huge-product-first-not-member", desc + ": the first element iterated is not contained"); }
+    const auto P = Factory::Boolean(D);
+    OK(k, !P.B().IsEmpty() && P.B().Cardinality() > 0 && P.B().Contains(Factory::EmptySet()), "huge-powerset", desc + ": power set of the product is empty or lacks the empty set");
+    c.rep.count("evaluations"); c.rep.count("nontrivial"); c.rep.outcome("huge-lazy");
+    c.done();
+  }
   const std::vector<K> kinds = { { 'P', psSize - 1 }, { 'D', 8 }, { 'P', psSize }, { 'D', dSize } };   // below and above the cache limit
   for (const auto& kd : kinds) {
     const LazyObj proto = make_lazy(kd.kind, kd.size);
